@@ -59,9 +59,9 @@ P = {
         text="Decides: every defaulted CLI flag copied into language options is wrapped in DefaultValue; file configuration is merged before builder overrides; deep_update never stores a mapping reachable from the source into the target (no shallow copy); _sections is written only by LanguageConfig; each builder owns a fresh loader/config. Merge results for all nested maps are declined.",
         note="Trusted: CPython ast.", ref="4/C13"),
     "C14": dict(
-        tech="clang JSON AST rules over the support headers expanded for every point of the language-option lattice (bounds check dominates copy, saturated length feeds reads, width agreement)",
-        text="Decides for C and C++ support headers at every option point: each set* routine's copy is dominated by an (offset+length) vs buffer-size comparison returning the error; each get* passes the saturated length derived from its own size/offset parameters and zero-initialises the destination; width constants agree with names and types. Bit-exact results and float16 rounding are declined (numerical; exhaustive enumeration is a dynamic technique).",
-        note="Trusted: clang 14 parser/JSON dump; expansion of the support template by the repository's own generator is a build step.", ref="4/C14"),
+        tech="clang JSON AST rules over the C and C++ support headers expanded by the repository's generator at each point of the option lattice the templates branch on (endianness x asserts x omit-float; quick: 3 points, thorough: all 12, C++ parsed as c++14 and c++17): dominance of bound checks over destination stores, saturated read lengths, capacity/width agreement, non-wrapping tail arithmetic, masked read-modify-write stores in the raw copy, byte-table order, width-family and C/C++ sibling agreement",
+        text="Decides for the C and C++ support headers: every store into a caller's buffer by a set primitive is dominated by a size-vs-(offset+length) comparison that returns the buffer-too-small error and covers the stored extent (wrappers pass buffer/size/offset through unchanged); every read uses a length saturated against the primitive's own size/offset (or copyTo's clamp) and lands in a zero-initialised local large enough for it; the saturation constant, local capacity, return type and name agree on W, getI<W> delegates to getU<W>, shifted literals are wide enough; remaining-bits subtractions cannot wrap; partial-byte stores in the raw copy are masked read-modify-writes and whole-byte moves cover floor(len/8) bytes; endianness-neutral byte tables follow wire order; bitspan::setZeros clears ceil((offset%8+len)/8) bytes and preserves the bits below the offset; the four getI widths are one routine up to W; C and C++ float16 pack/unpack are the same computation. Bit-exact results for all offsets/lengths/values and float16 rounding quality are declined (numerical; exhaustive enumeration is a dynamic technique); the Python support module is not claimed.",
+        note="Trusted: clang 14 parser/JSON dump; expansion of the support template by the repository's own generator is a build step (no DSDL type, nothing compiled to an executable or run).", ref="4/C14"),
     "C15": dict(
         tech="driver-shape rules, regex width analysis of the terminator pattern, return-value provenance of the line post-processors",
         text="Decides: every completed line and the final remainder reach _filter_and_write_line which applies all processors in order; a multi-character terminator must be searched across the carried buffer; TrimTrailingWhitespace returns the input terminator and a prefix of the line; LimitEmptyLines returns its argument or the elision tuple only for empty lines; the header copier does not drop characters. Equivalence for all texts and chunk schedules is declined.",
